@@ -14,8 +14,9 @@ LEVEL = 'exploration'
 BUDGET = {'quick': 1500, 'thorough': 5000}
 RULE = ('Hypothesis-generated histories of add_processor(new or previously removed instance, priority in '
         '{None, -3..3}) / remove_processor(type) / process(dt) over a generated hierarchy of 3-6 Processor '
-        'subclasses with class-level priority defaults (incl. 0, negatives, inherited) and handler flags '
-        '(no-argument on_add/on_remove); processors can be armed so that their next process() adds or removes a '
+        'subclasses with class-level priority defaults (incl. 0, negatives, inherited), handler flags and, for some '
+        'classes, value equality (equal-but-distinct processors of different types); handler processors have '
+        'no-argument on_add/on_remove, and an add_processor call may be one whose on_add raises; processors can be armed so that their next process() adds or removes a '
         'processor from inside the frame (then: processors registered at frame start and not removed during it '
         'run exactly once and in order, removed or added ones at most once). Oracle: reference list kept sorted by the priority each instance had '
         'when added, insertion after equal keys, one entry per exact type; compared by identity with '
